@@ -239,7 +239,9 @@ class DatasetOnDisk(GetSetDelAttrMixin, NetCDFOnDisk, AbstractDataset):
 
         # first load dimensions
         for dim in dims:
-            data.axes.append(self.axes[dim][dict_indices[dim]])
+            ax = self.axes[dim][dict_indices[dim]]
+            if isinstance(ax, Axis): # a scalar index collapses the dimension
+                data.axes.append(ax)
 
         # then normal variables
         for nm in names:
